@@ -329,12 +329,28 @@ where
     where
         F: FnMut(&mut I, &mut P) -> bool,
     {
-        self.map.retain2(predicate);
-        if self.map.len() != self.size {
-            self.size = self.map.len();
-            self.heap = (0..self.size).map(Index).collect();
-            self.qp = (0..self.size).map(Position).collect();
+        // Bring the index tables back in sync with the map when leaving this
+        // function, also when `predicate` panics and the call is left by unwinding.
+        struct Resync<'a, I, P, H>(&'a mut Store<I, P, H>);
+
+        impl<I, P, H> Drop for Resync<'_, I, P, H> {
+            fn drop(&mut self) {
+                let store = &mut *self.0;
+                if store.map.len() != store.map.iter().len() {
+                    // `predicate` unwound in the middle of `retain2`, which then
+                    // skips its re-indexing: a no-op `retain` performs it
+                    store.map.retain(|_, _| true);
+                }
+                if store.map.len() != store.size {
+                    store.size = store.map.len();
+                    store.heap = (0..store.size).map(Index).collect();
+                    store.qp = (0..store.size).map(Position).collect();
+                }
+            }
         }
+
+        let guard = Resync(self);
+        guard.0.map.retain2(predicate);
     }
 
     /// If the predicate returns true for the element in position `position`,
